@@ -282,7 +282,7 @@ pub fn extra(ctx: &Ctx) {
     // (iv) against the model + classification
     let base = digests(&c);
     let mut msg_div = 0u64;
-    for (i, case) in c.iter().enumerate() {
+    for (_i, case) in c.iter().enumerate() {
         let a = analyze(case);
         let mut cc = CaseCtx::default();
         let nq = a.merged_pairs.len();
